@@ -326,8 +326,9 @@ func kernelOnce(mode, destKind string, panicky map[int]bool, scripts [][]kCall, 
 	finished := make(chan struct{})
 	go func() { wg.Wait(); close(finished) }()
 
-	// supervisor: when every unfinished goroutine sits in Wait and nobody is left to close the
-	// subscription, close it from here (thread id 99), once.
+	// supervisor (several threads only; one-thread scripts never Wait before a closing call): when
+	// every unfinished goroutine has been sitting in Wait for a while and nobody is left to close
+	// the subscription, close it from here (thread id 99), once.
 	deadline := time.After(8 * time.Second)
 	cleaned := false
 	stable := 0
@@ -358,7 +359,7 @@ loop:
 		} else {
 			stable = 0
 		}
-		if stable >= 3 && !cleaned {
+		if stable >= 20 && !cleaned && n > 1 {
 			cleaned = true
 			r.log(kEv{typ: 'c', tid: 99, tok: "U"})
 			func() {
@@ -522,7 +523,7 @@ func runKernelCase(c *Case) string {
 	for i := 0; i < reps; i++ {
 		evs, v := kernelOnce(mode, dest, panicky, scripts, seed+int64(i)*1000003)
 		if v != "ok" {
-			return "res " + c.id + " verdict=" + v + " log=" + renderKLog(evs)
+			return "res " + c.id + " verdict=" + v + " faillog=" + renderKLog(evs)
 		}
 	}
 	return "res " + c.id + " verdict=ok"
@@ -599,9 +600,9 @@ func genKernel(tier string, seed int64, only string) []*Case {
 	}
 	modes := []string{"safe", "unsafe", "eventually"}
 	quick := tier != "thorough"
-	reps := 6
+	reps := 10
 	if !quick {
-		reps = 20
+		reps = 30
 	}
 
 	// 1. corpus: the races the properties are about
@@ -649,9 +650,9 @@ func genKernel(tier string, seed int64, only string) []*Case {
 
 	// 3. seeded: longer single-thread scripts, then 2-4 threads
 	rng := rand.New(rand.NewSource(seed))
-	nSeq, nConc := 400, 500
+	nSeq, nConc := 600, 2500
 	if !quick {
-		nSeq, nConc = 4000, 6000
+		nSeq, nConc = 5000, 20000
 	}
 	pick := func(weights string) byte { return weights[rng.Intn(len(weights))] }
 	for i := 0; i < nSeq; i++ {
